@@ -340,7 +340,25 @@ def _check(ctx_like, fwres, trxres):
             raise HarnessError("short frame dump for %s tn %d" % (pn, tn))
         cov["trxcon_lookups"] += CYCLE
         tables[pn, tn] = (lay, fr)
-        lid = "%s/0x%02x" % (pn, lay["slotmask"])
+        # "a layout valid for that timeslot": the only timeslot-dependent part of the mapping (TS 45.002 clause 7
+        # table 1) is the phase of the SACCH block on a traffic channel - SACCH/TF starts in frame
+        # (12 + 13 TN) mod 104, SACCH/TH sub-channel s in frame (12 + 13 s + 26 (TN div 2)) mod 104
+        want_sacch = {}
+        if pn == "GSM_PCHAN_TCH_F":
+            want_sacch = {"L1SCHED_SACCHTF": (12 + 13 * tn) % 104}
+        elif pn == "GSM_PCHAN_TCH_H":
+            want_sacch = {"L1SCHED_SACCHTH_%d" % s: (12 + 13 * s + 26 * (tn // 2)) % 104 for s in (0, 1)}
+        for xn, start in sorted(want_sacch.items()):
+            x = lch.get(xn)
+            for d, o in (("dl", 0), ("ul", 2)):
+                got = sorted({f % 104 for f in range(CYCLE) if fr[4 * f + o] == x and fr[4 * f + o + 1] == 0})
+                cov["tn_phase_checks"] = cov.get("tn_phase_checks", 0) + 1
+                if got != [start]:
+                    viol("C11:trxcon:lookup:%s:sacch-phase-for-timeslot" % pn, case,
+                         "l1sched_mframe_layout(%s, tn=%d) returned '%s': its %s %s blocks start in frames %s (mod 104); "
+                         "on timeslot %d the block starts in frame %d (TS 45.002 clause 7 table 1)"
+                         % (pn, tn, lay["name"], d.upper(), xn, got, tn, start))
+        lid ="%s/0x%02x" % (pn, lay["slotmask"])
         ident = (lay["chan_config"], lay["slotmask"], lay["period"], lay["lchan_mask"], lay["name"])
         if seen_layout.get(ident) == fr:
             continue        # the same layout (returned for another tn): internal checks done once
